@@ -260,7 +260,7 @@ def h_binop(ctx, op, kind, inplace):
         else:
             zero_div = divisor == 0
     if op == "**":
-        ctx.assume(and_(x > 0, y > 0) if not ctx.native else (x > 0 and 0 < y < 3))
+        ctx.assume(and_(x > 0, y > 0) if not ctx.native else (0 < x < 3 and 0 < y < 3))
     if op == "%":
         # modulo respects congruence mod 360 only on canonical operands: positive divisor, and a numeric
         # left operand of the reflected form already inside (-360, 360)  (DESIGN.md, C03)
